@@ -44,13 +44,29 @@ class Granter:
         self.ptr = p0
         self.gaps = list(gaps)
         self.starts = []
+        self.blocks = []
 
     def __call__(self, size):
         g = self.gaps.pop(0) if self.gaps else 0
         p = self.ptr + g
         self.ptr = p + size
         self.starts.append(p)
+        self.blocks.append(list(range(p, p + size)))
         return list(range(p, p + size))
+
+
+class StripedGranter(Granter):
+    """ a pre-allocator whose blocks are NOT contiguous ranges: the k-th
+    block is [k, k + STRIDE, k + 2*STRIDE, ...] (pairwise disjoint; what a
+    free-list or a striping allocator would hand out) """
+    STRIDE = 64
+
+    def __call__(self, size):
+        k = len(self.starts)
+        blk = [self.ptr + k + j * self.STRIDE for j in range(size)]
+        self.starts.append(blk[0] if blk else None)
+        self.blocks.append(blk)
+        return list(blk)
 
 
 # ------------------------------------------------------------ generators
@@ -112,11 +128,26 @@ def gen_cases(chk, mgr_cases):
         big = None
         if i < 3:
             bsize, big = [(2, 6), (3, 7), (1000, 1001)][i]
+        ops = gen_history(rng, rng.choice([1, 3, 8, 21]),
+                          rng.choice([2, 4, 9, 28]),
+                          rng.choice([0.0, 0.3, 0.6]), big=big)
+        # add .., sync, add .., sync: sync() may be called any number of
+        # times; `syncs` = numbers of adds after which one happens
+        syncs = sorted(set(rng.randrange(0, len(ops) + 1)
+                           for _ in range(rng.choice([0, 1, 1, 2, 3]))))
+        if i in (0, 1):
+            syncs = [len(ops) // 2]          # new values after a sync, small blocks
         cases.append({'kind': 2, 'bsize': bsize, 'gaps': [], 'p0': 0,
-                      'ops': gen_history(rng, rng.choice([1, 3, 8, 21]),
-                                         rng.choice([2, 4, 9, 28]),
-                                         rng.choice([0.0, 0.3, 0.6]),
-                                         big=big)})
+                      'ops': ops, 'syncs': syncs})
+    # pre-allocator with non-contiguous blocks (judged directly; the Coq
+    # model is stated for range blocks)
+    for _ in range(40 if chk.quick else 300):
+        bsize = rng.choice([2, 3, 4, 5])
+        cases.append({'kind': 4, 'bsize': bsize, 'gaps': [], 'p0':
+                      rng.choice([0, 1000]),
+                      'ops': gen_history(rng, rng.choice([3, 8, 21]),
+                                         rng.choice([3, 6, 9, 14]),
+                                         rng.choice([0.0, 0.3]))})
     rng.shuffle(cases)          # spread the expensive ones over the shards
     return cases
 
@@ -143,8 +174,9 @@ def run_impl(case, mgr=None):
     if kind == 0:
         st = ResultStoreSimple()
         local = st
-    elif kind == 1:
-        granter = Granter(case['p0'], case['gaps'])
+    elif kind in (1, 4):
+        granter = (Granter if kind == 1 else StripedGranter)(case['p0'],
+                                                            case['gaps'])
         st = ResultStoreSimple(f_preallocator=granter,
                                prealloc_block_size=bsize)
         local = st
@@ -156,6 +188,7 @@ def run_impl(case, mgr=None):
         def wrapped(size):
             blk = real(size)
             granter.starts.append(blk[0] if blk else None)
+            granter.blocks.append(list(blk))
             return blk
         st.preallocate = wrapped
         local = st.local
@@ -163,7 +196,19 @@ def run_impl(case, mgr=None):
     events = []         # (python value, index) for every non-skipped component
     problems = []       # property clauses violated by the implementation
     small = len(case['ops']) <= 60
+    syncs = list(case.get('syncs', []))
+    mids = []           # shared dicts after every sync()
+
+    def do_sync(when):
+        st.sync()
+        problems.extend(lookups(st, events, when))
+        mids.append([items_sorted(dict(st.data), cl),
+                     items_sorted(dict(st.value_store), cl, True),
+                     items_sorted(dict(st.tag_store), cl, True),
+                     items_sorted(dict(st.sequence_id_store), cl, True)])
     for n_op, (tag, sq, value) in enumerate(case['ops']):
+        if n_op in syncs:
+            do_sync(f"after the sync() that follows {n_op} adds")
         try:
             ti, si, vi = st.add(tag, sq, value)
         except Exception as exc:  # pylint: disable=broad-except
@@ -196,7 +241,7 @@ def run_impl(case, mgr=None):
         for _, i in events:
             if i is not None and i not in order:
                 order.append(i)
-        want = [p + o for p in starts for o in range(bsize)][:len(order)]
+        want = [i for blk in granter.blocks for i in blk][:len(order)]
         if order != want:
             problems.append("indices not taken from the granted blocks in "
                             f"order: {order[:12]} vs {want[:12]}")
@@ -207,12 +252,9 @@ def run_impl(case, mgr=None):
                      items_sorted(local.sequence_id_store, cl, True),
                      starts]}
     if kind == 2:
-        st.sync()
-        problems += lookups(st, events, "after sync")
-        shared = [items_sorted(dict(st.data), cl),
-                  items_sorted(dict(st.value_store), cl, True),
-                  items_sorted(dict(st.tag_store), cl, True),
-                  items_sorted(dict(st.sequence_id_store), cl, True)]
+        if len(case['ops']) in syncs:
+            do_sync("after a sync() following all adds")
+        do_sync("after the final sync()")
         st.unproxy_results()
         problems += lookups(st, events, "after unproxy_results")
         unprox = [items_sorted(st.data, cl),
@@ -223,10 +265,116 @@ def run_impl(case, mgr=None):
                    (st.data, st.value_store, st.tag_store,
                     st.sequence_id_store)):
             problems.append("unproxy_results left a proxy behind")
-        out['final'] += [shared, unprox]
+        out['final'] += [mids, unprox]
     out['ops_ids'] = [(cl.id(t), cl.id(s), cl.id(v))
                       for (t, s, v) in case['ops']]
+    # the history cut at the syncs: one segment per sync() (kind 2 ends with
+    # a final sync, so the last segment may be empty)
+    cuts = [0] + [k for k in syncs] + [len(case['ops'])]
+    out['segs'] = [out['ops_ids'][a:b] for a, b in zip(cuts, cuts[1:])]
     return out, problems
+
+
+# ------------------------------------------------------------ real forks
+def fork_scenario(rng, n):
+    bsize = [4, 2, 1000][n % 3] if n < 3 else rng.choice([2, 3, 4, 1000])
+    names = [f"w{i}" for i in range(40)]
+    rng.shuffle(names)
+    return {'bsize': bsize,
+            'pre': names[:rng.choice([1, 1, 2])],          # parent, before the fork
+            'children': [names[5 + 4 * k: 5 + 4 * k + rng.choice([2, 3])]
+                         for k in range(rng.choice([2, 2, 3]))],
+            'post': names[30:30 + rng.choice([1, 2, 3])]}  # parent, after
+
+
+def fork_after_use(mgr, bsize, pre, children, post):
+    """ the creating process adds `pre` to a manager-backed store, THEN forks
+    one worker per entry of `children`; every worker adds its values and
+    syncs, the parent adds `post` and syncs.  Returns what every process was
+    handed and the shared table afterwards. """
+    import multiprocessing
+    import os
+    import queue
+    from searchkit.results_store import (ResultStoreParallel,
+                                         ResultStoreException)
+    ctx = multiprocessing.get_context('fork')
+    st = ResultStoreParallel(mgr, prealloc_block_size=bsize)
+    handed = [[st.add(None, None, v)[2], v] for v in pre]
+    q = ctx.Queue()
+
+    def worker(k, vals):
+        got = []
+        try:
+            for v in vals:
+                got.append([st.add(None, None, v)[2], v])
+            st.sync()
+            q.put((k, 'ok', got, ''))
+        except ResultStoreException as exc:
+            q.put((k, 'refused', got, str(exc)))
+        except Exception as exc:  # pylint: disable=broad-except
+            q.put((k, 'error', got, repr(exc)))
+        finally:
+            q.close()
+            q.join_thread()
+            os._exit(0)
+    procs = [ctx.Process(target=worker, args=(k, vals))
+             for k, vals in enumerate(children)]
+    for p in procs:
+        p.start()
+    for v in post:
+        handed.append([st.add(None, None, v)[2], v])
+    st.sync()
+    kids = {}
+    try:
+        for _ in procs:
+            k, status, got, msg = q.get(timeout=60)
+            kids[k] = {'status': status, 'handed': got, 'message': msg}
+    except queue.Empty:
+        pass
+    for p in procs:
+        p.join(timeout=10)
+        if p.is_alive():
+            p.kill()
+    for k in range(len(children)):
+        kids.setdefault(k, {'status': 'no-answer', 'handed': [],
+                            'message': ''})
+    return {'parent': handed,
+            'children': [kids[k] for k in range(len(children))],
+            'shared': dict(st.data)}
+
+
+def judge_fork(obs):
+    """ no index handed out twice for different values; every index a
+    process that synchronised handed out resolves to its value.  A late
+    worker that is REFUSED (ResultStoreException) was handed nothing and is
+    fine. """
+    bad = []
+    owners = {}
+    who = [('parent', obs['parent'])] + [
+        (f"worker {k}", c['handed']) for k, c in enumerate(obs['children'])]
+    for name, pairs in who:
+        for idx, v in pairs:
+            if idx in owners and owners[idx][1] != v:
+                bad.append(f"index {idx} handed out twice: to "
+                           f"{owners[idx][0]} for {owners[idx][1]!r} and to "
+                           f"{name} for {v!r}")
+            owners.setdefault(idx, (name, v))
+    for k, c in enumerate(obs['children']):
+        if c['status'] not in ('ok', 'refused'):
+            bad.append(f"worker {k}: {c['status']} {c['message'][:120]}")
+        if c['status'] == 'refused' and c['handed']:
+            bad.append(f"worker {k} was refused after being handed "
+                       f"{c['handed']}")
+    done = [('parent', obs['parent'])] + [
+        (f"worker {k}", c['handed']) for k, c in enumerate(obs['children'])
+        if c['status'] == 'ok']
+    for name, pairs in done:
+        for idx, v in pairs:
+            if obs['shared'].get(idx) != v:
+                bad.append(f"after all syncs shared[{idx}] = "
+                           f"{obs['shared'].get(idx)!r}, {name} stored "
+                           f"{v!r} under it")
+    return bad
 
 
 def lookups(store, events, when):
@@ -291,22 +439,31 @@ Fixpoint trace (s : store) (ops : list op) : store * list jv :=
                :: js)
       end
   end.
-Definition case_t := (Z * Z * Z * list Z * list op)%type.
+Definition jsh (sh : shared) : jv :=
+  JL [jd (sh_data sh); jd (sh_vstore sh); jd (sh_tstore sh); jd (sh_sstore sh)].
+(* the history cut at the sync() calls: after every segment the local store
+   is merged into the shared dicts (and left as it is) *)
+Fixpoint run_segs (s : store) (sh : shared) (segs : list (list op))
+  : store * list jv * shared * list jv :=
+  match segs with
+  | [] => (s, [], sh, [])
+  | seg :: r =>
+      let '(s1, js) := trace s seg in
+      let sh1 := sync s1 sh in
+      let '(s2, js2, sh2, ms) := run_segs s1 sh1 r in
+      (s2, js ++ js2, sh2, jsh sh1 :: ms)
+  end.
+Definition case_t := (Z * Z * Z * list Z * list (list op))%type.
 Definition run_case (c : case_t) : jv :=
-  let '(kind, bsize, p0, gaps, ops) := c in
+  let '(kind, bsize, p0, gaps, segs) := c in
   let s0 := if kind =? 0 then init_plain
             else init_pre bsize (start_of p0 bsize gaps) in
-  let '(s, js) := trace s0 ops in
+  let '(s, js, sh, mids) := run_segs s0 shared_empty segs in
   let starts := map (pstart s) (seq 0 (ngrants s)) in
   let local := [jd (data s); jd (vstore s); jd (tstore s); jd (sstore s);
                 JZs starts] in
-  let sh := sync s shared_empty in
-  let shj := JL [jd (sh_data sh); jd (sh_vstore sh); jd (sh_tstore sh);
-                 jd (sh_sstore sh)] in
-  let shu := unproxy sh in
-  let shuj := JL [jd (sh_data shu); jd (sh_vstore shu); jd (sh_tstore shu);
-                  jd (sh_sstore shu)] in
-  JL [JL js; JL (local ++ (if kind =? 2 then [shj; shuj] else []))].
+  JL [JL js; JL (local ++ (if kind =? 2 then [JL mids; jsh (unproxy sh)]
+                           else []))].
 """
 
 
@@ -314,11 +471,14 @@ def coq_opt(x):
     return "None" if x is None else f"Some {x}"
 
 
-def coq_case(case, ids):
-    ops = "; ".join(f"({coq_opt(t)}, {coq_opt(s)}, {coq_opt(v)})"
-                    for (t, s, v) in ids)
+def coq_case(case, segs):
+    def seg(ids):
+        return "[" + "; ".join(
+            f"({coq_opt(t)}, {coq_opt(s)}, {coq_opt(v)})"
+            for (t, s, v) in ids) + "]"
     return (f"({case['kind']}, {case['bsize']}, {case['p0']}, "
-            f"{vlib.zl(case['gaps'])}, [{ops}])")
+            f"{vlib.zl(case['gaps'])}, "
+            f"([{'; '.join(seg(x) for x in segs)}] : list (list op)))")
 
 
 def run(chk):
@@ -329,7 +489,9 @@ def run(chk):
         "add(tag, seq, value)); components drawn from one small pool shared "
         "by the three namespaces (incl. ==-equal values of different type "
         "and None), plus histories with exactly k*bsize-1 / k*bsize / "
-        "k*bsize+1 distinct values; non-trivial = at least two distinct "
+        "k*bsize+1 distinct values; manager-backed histories with sync() "
+        "calls in between; a striping pre-allocator; real fork-after-use "
+        "runs; non-trivial = at least two distinct "
         "values and one repeated value; distinct = different (kind, bsize, "
         "gaps, id history)")
     mgr_n = 40 if chk.quick else 300
@@ -352,19 +514,28 @@ def run(chk):
                      'history': [list(map(repr, o)) for o in c['ops']][:200]})
                 outs.append(None)
                 continue
-            outs.append(out)
-            ran.append(c)
             ids = out['ops_ids']
-            coq_cases.append(coq_case(c, ids))
-            wants.append([out['steps'], out['final']])
+            if c['kind'] != 4:          # striped blocks: judged directly only
+                outs.append(out)
+                ran.append(c)
+                coq_cases.append(coq_case(c, out['segs']))
+                wants.append([out['steps'], out['final']])
+            if c.get('syncs'):
+                chk.dist('histories-with-intermediate-sync')
             for p in problems[:1]:
                 chk.violation(
                     f"store-clause kind={c['kind']} bsize={c['bsize']}: "
                     f"{p.split(':')[0][:60]}",
                     {'clause_violated': problems[:5], 'kind': c['kind'],
                      'prealloc_block_size': c['bsize'], 'gaps': c['gaps'],
-                     'p0': c['p0'], 'history': [list(map(repr, o))
-                                                for o in c['ops']][:200]})
+                     'p0': c['p0'],
+                     'sync_called_after_n_adds': c.get('syncs', []),
+                     'preallocator': {0: None, 1: 'pointer with gaps',
+                                      2: 'ResultStoreParallel.preallocate',
+                                      4: 'striped blocks k, k+64, ..'}
+                     [c['kind']],
+                     'history': [list(map(repr, o))
+                                 for o in c['ops']][:200]})
             flat = [x for o in ids for x in o if x is not None]
             key = (c['kind'], c['bsize'], tuple(c['gaps']), tuple(ids))
             if key not in seen:
@@ -383,6 +554,28 @@ def run(chk):
                 chk.dist('value-equals-own-tag-or-seq')
             if any(x is None for o in ids for x in o):
                 chk.dist('has-None-component')
+        # a manager-backed store used by its creator BEFORE worker
+        # processes are forked (real processes)
+        if mgr is None:
+            mgr = multiprocessing.Manager()
+        for n in range(3 if chk.quick else 12):
+            sc = fork_scenario(chk.rng, n)
+            try:
+                obs = fork_after_use(mgr, **sc)
+                bad = judge_fork(obs)
+            except Exception as exc:  # pylint: disable=broad-except
+                obs, bad = {}, [f"run raised {type(exc).__name__}: {exc}"]
+            chk.coverage['evaluations'] += 1
+            chk.dist('fork-after-use-runs')
+            chk.dist('late-workers-refused',
+                     sum(1 for c in obs.get('children', [])
+                         if c['status'] == 'refused'))
+            for b in bad[:1]:
+                chk.violation(
+                    f"store-fork-after-use bsize={sc['bsize']}: "
+                    f"{b.split(':')[0][:50]}",
+                    {'clause_violated': bad[:5], 'scenario': sc,
+                     'observed': obs})
     finally:
         if mgr is not None:
             mgr.shutdown()
